@@ -39,6 +39,10 @@ pub enum Step {
     /// The driver stalls: from now until the next Settle / crash it handles no local command, so completion
     /// notifications pile up in its (possibly very small, see `Plan::chan`) command channel.
     Stall,
+    /// Settle, then restart the node for another network (`id` is the new network id; same id = a clean restart).
+    /// The node wipes its records when the network changes (nothing is required of that restart); from then on the
+    /// node runs on the new network and every later restart has to keep what was completed since.
+    RestartOnNetwork { id: u8 },
 }
 
 #[derive(Serialize, Deserialize, Clone, Debug)]
@@ -60,6 +64,9 @@ pub struct Plan {
     /// and ordinary values of the key alternate
     #[serde(default)]
     pub huge_key: Option<usize>,
+    /// network id the node starts on (0 = 1, the default network)
+    #[serde(default)]
+    pub net0: u8,
     pub steps: Vec<Step>,
 }
 
@@ -239,7 +246,31 @@ impl Sim for StoreSim {
             ("C02", Tier::Thorough) => u32::MAX,
             _ => 0,
         };
-        let steps = gen_steps(rng, ctx, n_keys, n_steps, kind);
+        let mut steps = gen_steps(rng, ctx, n_keys, n_steps, kind);
+        // C02, a tenth of the runs: the node is moved between networks (ids of one, two or three digits)
+        let mut net0 = 0u8;
+        if kind == "C02" && rng.chance(1, 10) {
+            let pick_id = |rng: &mut Rng| -> u8 {
+                match rng.below(3) {
+                    0 => rng.range(2, 9) as u8,
+                    1 => rng.range(10, 99) as u8,
+                    _ => rng.range(100, 255) as u8,
+                }
+            };
+            net0 = pick_id(rng);
+            for _ in 0..rng.urange(1, 2) {
+                let at = rng.usize_below(steps.len().max(1));
+                steps.insert(at, Step::RestartOnNetwork { id: pick_id(rng) });
+                // work on the new network, then an ordinary restart there
+                let mut v = 9000 + at as u32;
+                for j in 0..rng.urange(1, 3) {
+                    v += 1;
+                    steps.insert((at + 1 + j).min(steps.len()), Step::Put { key: rng.usize_below(n_keys), val: v });
+                }
+                let later = (at + 2 + rng.usize_below(6)).min(steps.len());
+                steps.insert(later, Step::Restart);
+            }
+        }
         Plan {
             property: ctx.property.clone(),
             mode: ctx.mode.clone(),
@@ -251,6 +282,7 @@ impl Sim for StoreSim {
             filler,
             chan: if kind == "C01" && rng.chance(1, 3) { rng.urange(1, 4) } else { 0 },
             huge_key: if (kind == "C02" || kind == "C01") && rng.chance(1, 40) { Some(rng.usize_below(n_keys)) } else { None },
+            net0,
             steps,
         }
     }
